@@ -229,3 +229,13 @@ def c16_e(ctx):
     ctx.check(bool(ext), sv, 'kind from the file extension', 'splitext(fname)[1][1:]',
               'the kind is not derived from the file extension', fn=sv,
               node=ext[0] if ext else sv.node)
+
+
+# The intervals a sample reports are computed by weighted_sample_quantile: its partition
+# structure (one permutation for values and weights) is part of this property too (= C13-a).
+from . import C13 as _C13   # noqa: E402
+
+obligation('C16-f', 'T6 T7 T5', 'the quantile helper behind the reported intervals permutes values '
+           'and weights together (shared with C13-a)', floor=6,
+           necessary='weights accumulated in stored order give intervals that depend on the '
+                     'storage order of the sample')(_C13.c13_a)
